@@ -1,4 +1,5 @@
 import GrinVerif.Lemmas.ChainBasic
+import GrinVerif.Lemmas.ChainExampleFacts
 import GrinVerif.Lemmas.ChainApply
 import GrinVerif.Lemmas.ChainValue
 /-! # C01 — no value is created (value component of the balance equation, in the opening model
@@ -77,4 +78,21 @@ theorem unspent_distinct (p : Params) (outs : List OutDef) (g : Blk) (bs : List 
   exact (replay_value p outs bs _ s hnd hr (fun b h =>
     ⟨(hb b h).1, (validateBody_none p outs b _ (hb b h).2).2.2.2.2⟩)).2
 
+/-! ## non-vacuity: the hypotheses hold on the concrete tree of `Lemmas/ChainExamples.lean`
+(0 ── 1 ── 3 ── 4, sibling 2 of 1, invalid child 9 of 1; 3 spends the genesis output 100 and
+4 re-creates that commitment) -/
+section Examples
+open GV.Chain.Ex
+
+-- `state_equation`: hypotheses hold on the path 0,1,3,4 — four blocks, four subsidies
+example : utxoValue Ex.outs
+    { utxo := [(101, 1, true), (103, 2, true), (105, 3, true), (100, 3, false)], nrd := [], height := 3 }
+    = (3 + 1) * 60 :=
+  state_equation P Ex.outs G [B1, B3, B4] _ (by decide) (by decide) rfl
+    (by
+      intro b hb
+      simp only [List.mem_cons, List.not_mem_nil, or_false] at hb
+      rcases hb with rfl | rfl | rfl <;> exact ⟨⟨by decide, by decide⟩, by decide⟩)
+
+end Examples
 end GV.Props.C01
